@@ -105,6 +105,18 @@ fn check_node(e: &Element<String>, r: &RNode, ancestors: &mut Vec<String>, w: &m
     Ok(())
 }
 
+fn small_check(bytes: &[Vec<u8>]) -> Result<bool, String> {
+    let root = crate::sut::parse_seq(bytes).map_err(|(i, e)| format!("document #{} rejected: {}", i + 1, e))?;
+    let src = root.to_serde_struct(&Options::quick_xml_de());
+    let defs = crate::rendered::read_lines(&src).map_err(|e| format!("output unreadable: {}\n{}", e, src))?;
+    let tree = crate::rendered::build_tree(&defs, "@", "$text").map_err(|e| format!("not a tree: {}\n{}", e, src))?;
+    let mut counts = BTreeMap::new();
+    count_positions(&root, &mut counts);
+    let mut w = Walk { counts: &counts, checked: 0, qualified: 0, unique_unqualified: 0, suffixed: 0, max_depth: 0 };
+    check_node(&root, &tree, &mut Vec::new(), &mut w).map_err(|e| format!("{}\n{}", e, src))?;
+    Ok(w.qualified > 0 || w.suffixed > 0)
+}
+
 impl Property for C14 {
     fn id(&self) -> &'static str {
         "C14"
@@ -153,8 +165,30 @@ impl Property for C14 {
         st.sample(|| describe_case(&p));
         res.map_err(|e| Failure::new(e).with_detail(json!({"case": describe_case(&p), "rendered": src})))
     }
+    fn extra(&self, tier: Tier, _seed: u64, st: &mut Stats) -> Result<(), (Failure, Value)> {
+        let max_nodes = match tier {
+            Tier::Quick => 4,
+            Tier::Thorough => 5,
+        };
+        let docs = super::smallscope::documents_over(max_nodes, super::c04::SMALL_NAMES);
+        let (evals, nts, fail) = super::smallscope::run_tuples_over(docs, 1, |_docs, bytes| small_check(bytes));
+        st.evaluations += evals;
+        st.nontrivial_enumerated += nts;
+        st.add("exhaustive.documents_over_colliding_names", evals);
+        if let Some((e, docs)) = fail {
+            return Err((Failure::new(format!("small-scope exhaustive search: {}", e)).with_detail(json!({"documents": docs})), json!({"small_scope_documents": docs})));
+        }
+        Ok(())
+    }
+    fn replay_custom(&self, payload: &Value) -> Result<(), Failure> {
+        let docs: Vec<Vec<u8>> = payload["small_scope_documents"].as_array().map(|a| a.iter().map(|d| d.as_str().unwrap_or("").as_bytes().to_vec()).collect()).unwrap_or_default();
+        small_check(&docs).map(|_| ()).map_err(Failure::new)
+    }
+    fn exhaustive(&self) -> bool {
+        true
+    }
     fn rule(&self) -> String {
-        "tape-decoded document sequences over pools of 2..5 names (so the same name recurs under different parents, at different depths and under itself; overlapping concatenations such as Total/Price/TotalPrice, A/BC/AB/C), one document in six a chain of depth up to 200. Every struct item is mapped to its tree position (pre-order) and its name must be P(e_k-j)..P(e_k) plus optional digits for the nearest j ancestors, j = 0 for the first struct and for every element whose PascalCase name occurs at a single position of the whole tree (String-typed positions included). Non-trivial = some name occurs at two or more positions, some name is unique, depth >= 3; distinct by hash of the structural documents.".into()
+        "small-scope exhaustive: every document with root r and up to 4 (thorough: 5) elements over the child names a, b, ab, A, type; sampled: tape-decoded document sequences over pools of 2..5 names (so the same name recurs under different parents, at different depths and under itself; overlapping concatenations such as Total/Price/TotalPrice, A/BC/AB/C), one document in six a chain of depth up to 200. Every struct item is mapped to its tree position (pre-order) and its name must be P(e_k-j)..P(e_k) plus optional digits for the nearest j ancestors, j = 0 for the first struct and for every element whose PascalCase name occurs at a single position of the whole tree (String-typed positions included). Non-trivial = some name occurs at two or more positions, some name is unique, depth >= 3; distinct by hash of the structural documents.".into()
     }
     fn assumptions(&self) -> Vec<String> {
         vec![
